@@ -52,3 +52,27 @@ Example C04_example :
   w_cwd w' = DOther 0 /\ w_roots w' = [0] /\ fr_status r = FAIL /\
   let '(w'', _, _) := execute_in_world false tc eff w0 in w_roots w'' = [].
 Proof. vm_compute. repeat split. Qed.
+
+(** "The check predicate holds on the model" (built by a separate pass; proofs in Proofs/PredOnModelC04.v): the boolean
+    predicate the check evaluates on OBSERVED behaviour is true of the model's own output for all inputs, and
+    correspondence on an input implies the property on that input. *)
+From Exactly Require Import Proofs.PredOnModelC04.
+(** ** C04.  The five compared fields are the world model's values, the "cwd is act/ at the first
+    step after the sandbox" field is the model's [x_cwd_after_sandbox]; the directory layout is
+    outside the model and stays a free observation. *)
+Theorem C04_check_predicate_holds_on_model : forall keep tc evs layout,
+  check_c04 (obs_of_model_c04 keep tc evs layout) = (true, opt_true layout).
+Proof. exact check_c04_on_model. Qed.
+Print Assumptions C04_check_predicate_holds_on_model.
+
+Theorem C04_model_cwd_is_act : forall tc eff w,
+  model_cwd_is_act tc eff w = None \/ model_cwd_is_act tc eff w = Some true.
+Proof. exact model_cwd_is_act_true. Qed.
+Print Assumptions C04_model_cwd_is_act.
+
+Theorem C04_correspondence_implies_property : forall c,
+  fst (check_c04 c) = true ->
+  snd (check_c04 c) = opt_true (d_obs_cwd_is_act_at_first_post_sds_step c) && opt_true (d_obs_layout_ok c).
+Proof. exact corr_implies_property_c04. Qed.
+Print Assumptions C04_correspondence_implies_property.
+
